@@ -26,13 +26,13 @@ type StreamLite struct {
 }
 
 type ViewSig struct {
-	Indexes []string               `json:"indexes"`
-	Streams []StreamLite           `json:"streams"`
-	TagBits map[string][2][]uint   `json:"tagbits,omitempty"`
-	Search  map[string][]uint64    `json:"search,omitempty"`
-	SErr    map[string]string      `json:"serr,omitempty"`
+	Indexes []string                     `json:"indexes"`
+	Streams []StreamLite                 `json:"streams"`
+	TagBits map[string][2][]uint         `json:"tagbits,omitempty"`
+	Search  map[string][]uint64          `json:"search,omitempty"`
+	SErr    map[string]string            `json:"serr,omitempty"`
 	Conv    map[string]map[uint64]string `json:"conv,omitempty"` // converter -> stream -> digest found in cached output ("" = none, "!" = malformed)
-	Err     string                 `json:"err,omitempty"`
+	Err     string                       `json:"err,omitempty"`
 }
 
 func (v *ViewSig) Hash() string {
@@ -60,16 +60,16 @@ func sortedKeys[V any](m map[string]V) []string {
 }
 
 type OpResult struct {
-	Err     string                 `json:"err,omitempty"`
-	State   *manager.VerifState    `json:"state,omitempty"`
-	G       map[string][]uint      `json:"g,omitempty"`
-	GErr    map[string]string      `json:"gerr,omitempty"`
-	View    *ViewSig               `json:"view,omitempty"`
-	Tags    []manager.TagInfo      `json:"tags,omitempty"`
-	Status  *manager.Statistics    `json:"status,omitempty"`
-	Names   []string               `json:"names,omitempty"`
-	Text    string                 `json:"text,omitempty"`
-	Found   bool                   `json:"found,omitempty"`
+	Err    string              `json:"err,omitempty"`
+	State  *manager.VerifState `json:"state,omitempty"`
+	G      map[string][]uint   `json:"g,omitempty"`
+	GErr   map[string]string   `json:"gerr,omitempty"`
+	View   *ViewSig            `json:"view,omitempty"`
+	Tags   []manager.TagInfo   `json:"tags,omitempty"`
+	Status *manager.Statistics `json:"status,omitempty"`
+	Names  []string            `json:"names,omitempty"`
+	Text   string              `json:"text,omitempty"`
+	Found  bool                `json:"found,omitempty"`
 }
 
 type clientState struct {
